@@ -164,9 +164,11 @@ def SItem.ev : SItem α → Ev α
   | .cookware c => .cookware c
   | .timer t => .timer t
 
-/-- the events of a simple recipe: `start step`, the items, `stop step` for every step -/
-def SimpleRecipe.events (r : SimpleRecipe α) : List (Ev α) :=
-  r.steps.flatMap (fun st => [Ev.start .step] ++ st.map SItem.ev ++ [Ev.stop .step])
+/-- the events of one step: `start step`, the items, `stop step` -/
+def stepEvents (st : List (SItem α)) : List (Ev α) := [Ev.start .step] ++ st.map SItem.ev ++ [Ev.stop .step]
+
+/-- the events of a simple recipe -/
+def SimpleRecipe.events (r : SimpleRecipe α) : List (Ev α) := r.steps.flatMap stepEvents
 
 def SItem.Simple : SItem α → Prop
   | .text _ => True
@@ -288,5 +290,90 @@ theorem rta_item (env : Env) (input : Str) (hadv : env.ext.has Gen.EXT_ADVANCED_
   | timer lt =>
     rw [SItem.ev, rta_proc_timer env input lt _ items h hadv rfl]
     simp [stOf, SItem.toItem, ingrsOf, cwsOf, timersOf, SItem.ingr?, SItem.cw?, SItem.timer?]
+
+theorem rta_ev_not_error (it : SItem α) : ¬ ∃ d0, it.ev = .error d0 := by
+  rintro ⟨d, h⟩; cases it <;> cases h
+
+/-- the items of a step, one after the other -/
+theorem rta_loop_items (env : Env) (input : Str) (hadv : env.ext.has Gen.EXT_ADVANCED_UNITS = false)
+    (hinl : env.ext.has Gen.EXT_INLINE_QUANTITIES = false) (rest : List (Ev α)) (content : List Content) (n : Nat) :
+    ∀ (st : List (SItem α)), (∀ it ∈ st, it.Simple) → ∀ (before : List (SItem α)) (items : List Item),
+      parseEventsLoop env input (st.map SItem.ev ++ rest) (stOf env before content n (some (.step items))) =
+        parseEventsLoop env input rest
+          (stOf env (before ++ st) content n (some (.step (items ++ itemsFrom before st)))) := by
+  intro st
+  induction st with
+  | nil => intro _ before items; simp [itemsFrom]
+  | cons it r ih =>
+    intro hs before items
+    rw [List.map_cons, List.cons_append, parseEventsLoop_cons_nonerror env input _ _ _ (rta_ev_not_error it),
+      rta_item env input hadv hinl it (hs it (by simp)), ih (fun x hx => hs x (by simp [hx]))]
+    simp [itemsFrom]
+
+theorem rta_start (env : Env) (input : Str) (before : List (SItem α)) (content : List Content) (n : Nat) :
+    (processEvent env input (.start .step) (stOf env before content n none)).2 =
+      stOf env before content n (some (.step [])) := by
+  simp [processEvent, modify, modifyGet, MonadStateOf.modifyGet, StateT.modifyGet, stOf, pure, StateT.pure]
+
+theorem rta_stop (env : Env) (input : Str) (before : List (SItem α)) (content : List Content) (n : Nat)
+    (items : List Item) (hne : items ≠ []) :
+    (processEvent env input (.stop .step) (stOf env before content n (some (.step items)))).2 =
+      stOf env before (content ++ [.step ⟨items, n⟩]) (n + 1) none := by
+  have hne' : items.isEmpty = false := by cases items <;> simp_all
+  simp [processEvent, endBlock, endBlockContent, pushContent, Content.isStep, Content.isEmptyContent, hne', bind,
+    StateT.bind, get, getThe, MonadStateOf.get, StateT.get, pure, StateT.pure, modify, modifyGet,
+    MonadStateOf.modifyGet, StateT.modifyGet, stOf]
+
+theorem rta_itemsFrom_ne (before : List (SItem α)) (st : List (SItem α)) (h : st ≠ []) : itemsFrom before st ≠ [] := by
+  cases st with
+  | nil => exact absurd rfl h
+  | cons a r => simp [itemsFrom]
+
+/-- the steps, one after the other -/
+theorem rta_loop_steps (env : Env) (input : Str) (hadv : env.ext.has Gen.EXT_ADVANCED_UNITS = false)
+    (hinl : env.ext.has Gen.EXT_INLINE_QUANTITIES = false) (rest : List (Ev α)) :
+    ∀ (steps : List (List (SItem α))), (∀ st ∈ steps, ∀ it ∈ st, it.Simple) → (∀ st ∈ steps, st ≠ []) →
+      ∀ (before : List (SItem α)) (content : List Content) (n : Nat),
+      parseEventsLoop env input (steps.flatMap stepEvents ++ rest) (stOf env before content n none) =
+        parseEventsLoop env input rest
+          (stOf env (before ++ steps.flatten) (content ++ stepsFrom before n steps) (n + steps.length) none) := by
+  intro steps
+  induction steps with
+  | nil => intro _ _ before content n; simp [stepsFrom]
+  | cons st r ih =>
+    intro hs hne before content n
+    have e : (st :: r).flatMap stepEvents ++ rest =
+        Ev.start .step :: (st.map SItem.ev ++ (Ev.stop .step :: (r.flatMap stepEvents ++ rest))) := by
+      simp [stepEvents, List.flatMap_cons]
+    rw [e, parseEventsLoop_cons_nonerror env input _ _ _ (by rintro ⟨d, h⟩; cases h), rta_start,
+      rta_loop_items env input hadv hinl _ content n st (hs st (by simp)) before [],
+      parseEventsLoop_cons_nonerror env input _ _ _ (by rintro ⟨d, h⟩; cases h), List.nil_append,
+      rta_stop env input _ content n _ (rta_itemsFrom_ne before st (hne st (by simp))),
+      ih (fun x hx => hs x (by simp [hx])) (fun x hx => hne x (by simp [hx]))]
+    simp [stepsFrom, List.append_assoc, Nat.add_assoc, Nat.add_comm 1]
+
+/-- the collector's result for a simple recipe: one unnamed section with the steps numbered from 1,
+    the component tables in source order; everything else as in an empty recipe -/
+def expectedCol (env : Env) (r : SimpleRecipe α) : Col α :=
+  { sections := if r.steps.isEmpty then [] else [⟨none, stepsFrom [] 1 r.steps⟩],
+    ingredients := ((ingrsOf r.steps.flatten).map (ingrOf env)).toArray,
+    cookware := ((cwsOf r.steps.flatten).map (cwOf env)).toArray,
+    timers := ((timersOf r.steps.flatten).map (timerOf env)).toArray,
+    locIngr := (ingrsOf r.steps.flatten).toArray,
+    locCw := (cwsOf r.steps.flatten).toArray,
+    stepCounter := 1 + r.steps.length }
+
+theorem rta_parseEvents_simple (env : Env) (input : Str) (hadv : env.ext.has Gen.EXT_ADVANCED_UNITS = false)
+    (hinl : env.ext.has Gen.EXT_INLINE_QUANTITIES = false) (r : SimpleRecipe α)
+    (hs : ∀ st ∈ r.steps, ∀ it ∈ st, it.Simple) (hne : ∀ st ∈ r.steps, st ≠ []) :
+    parseEvents env input r.events = ⟨some (expectedCol env r), #[], none⟩ := by
+  have h0 : ({} : Col α) = stOf env [] [] 1 none := by simp [stOf, ingrsOf, cwsOf, timersOf]
+  have e : r.events = r.steps.flatMap stepEvents ++ [] := by simp [SimpleRecipe.events]
+  unfold parseEvents
+  rw [h0, e, rta_loop_steps env input hadv hinl [] r.steps hs hne [] [] 1]
+  cases hst : r.steps with
+  | nil => simp [parseEventsLoop, stOf, expectedCol, hst, stepsFrom, Section.isEmpty, ingrsOf, cwsOf, timersOf]
+  | cons a b =>
+    simp [parseEventsLoop, stOf, expectedCol, hst, stepsFrom, Section.isEmpty]
 
 end Cook
